@@ -129,9 +129,14 @@ func (s *Server) serve(ctx context.Context, listener net.Listener, handler Modbu
 		s.OnServeFunc(listener.Addr())
 	}
 
+	s.mu.Lock()
 	s.listener = listener
+	s.mu.Unlock()
 	l := onceCloseListener{Listener: listener}
 	defer l.Close()
+	if s.isShutdown.Load() {
+		return ErrServerClosed // Shutdown was called before we got to serve
+	}
 
 	for {
 		netConn, err := l.Accept()
@@ -295,7 +300,10 @@ func (s *Server) Shutdown(ctx context.Context) error {
 	defer s.mu.Unlock()
 	s.isShutdown.Store(true)
 
-	err := s.listener.Close()
+	var err error
+	if s.listener != nil { // is nil when Shutdown is called before serving has started
+		err = s.listener.Close()
+	}
 
 	timer := time.NewTimer(50 * time.Millisecond)
 	defer timer.Stop()
